@@ -181,6 +181,71 @@ let spec_playout (seed : int) (plies : int) (fen : string) : string list =
         go p' (n - 1) (spec_fen p' :: acc) end in
     go (freeze p0) plies [fen]
 
+
+(* ---------- ChaCha8Rng (rand_chacha 0.3) + rand 0.8 sampling, as the searcher uses them ----------
+   Trusted glue, validated on every run against the harness' `hashstream`/`jitter` dumps. *)
+module Rng = struct
+  type t = { key : int array; mutable counter : int; buf : int array; mutable index : int }
+  let m32 = 0xFFFFFFFF
+  let rotl x n = ((x lsl n) lor (x lsr (32 - n))) land m32
+  let block key counter out off =
+    let st = Array.make 16 0 in
+    st.(0) <- 0x61707865; st.(1) <- 0x3320646e; st.(2) <- 0x79622d32; st.(3) <- 0x6b206574;
+    Array.blit key 0 st 4 8;
+    st.(12) <- counter land m32; st.(13) <- (counter lsr 32) land m32; st.(14) <- 0; st.(15) <- 0;
+    let x = Array.copy st in
+    let qr a b c d =
+      x.(a) <- (x.(a) + x.(b)) land m32; x.(d) <- rotl (x.(d) lxor x.(a)) 16;
+      x.(c) <- (x.(c) + x.(d)) land m32; x.(b) <- rotl (x.(b) lxor x.(c)) 12;
+      x.(a) <- (x.(a) + x.(b)) land m32; x.(d) <- rotl (x.(d) lxor x.(a)) 8;
+      x.(c) <- (x.(c) + x.(d)) land m32; x.(b) <- rotl (x.(b) lxor x.(c)) 7 in
+    for _ = 1 to 4 do
+      qr 0 4 8 12; qr 1 5 9 13; qr 2 6 10 14; qr 3 7 11 15;
+      qr 0 5 10 15; qr 1 6 11 12; qr 2 7 8 13; qr 3 4 9 14
+    done;
+    for i = 0 to 15 do out.(off + i) <- (x.(i) + st.(i)) land m32 done
+  let refill r =
+    for b = 0 to 3 do block r.key (r.counter + b) r.buf (16 * b) done;
+    r.counter <- r.counter + 4
+  let of_seed_u64 (seed : Int64.t) : t =
+    let state = ref seed in
+    let key = Array.make 8 0 in
+    for i = 0 to 7 do
+      state := Int64.add (Int64.mul !state 6364136223846793005L) (-6812164046247290893L) (* 11634580027462260723 *);
+      let s = !state in
+      let xorshifted = Int64.to_int (Int64.logand (Int64.shift_right_logical (Int64.logxor (Int64.shift_right_logical s 18) s) 27) 0xFFFFFFFFL) in
+      let rot = Int64.to_int (Int64.shift_right_logical s 59) in
+      key.(i) <- ((xorshifted lsr rot) lor (xorshifted lsl ((32 - rot) land 31))) land m32
+    done;
+    { key; counter = 0; buf = Array.make 64 0; index = 64 }
+  let next_u32 r =
+    if r.index >= 64 then begin refill r; r.index <- 0 end;
+    let v = r.buf.(r.index) in r.index <- r.index + 1; v
+  (* returns (lo32, hi32) of the u64 *)
+  let next_u64_parts r =
+    if r.index < 63 then begin
+      let lo = r.buf.(r.index) and hi = r.buf.(r.index + 1) in r.index <- r.index + 2; (lo, hi) end
+    else if r.index >= 64 then begin
+      refill r; r.index <- 2; (r.buf.(0), r.buf.(1)) end
+    else begin
+      let x = r.buf.(63) in refill r; r.index <- 1; (x, r.buf.(0)) end
+  let next_u64_int64 r = let (lo, hi) = next_u64_parts r in Int64.logor (Int64.shift_left (Int64.of_int hi) 32) (Int64.of_int lo)
+  let next_u64_n r : coq_N =
+    let (lo, hi) = next_u64_parts r in
+    BinNat.N.add (BinNat.N.mul (n_of_int hi) (n_of_int 4294967296)) (n_of_int lo)
+  (* rng.gen_range(lo..=hi) for i32 (UniformInt::sample_single_inclusive) *)
+  let gen_range_incl r lo hi =
+    let range = (hi - lo + 1) land m32 in
+    let lz = let rec go n k = if n land 0x80000000 <> 0 then k else go ((n lsl 1) land m32) (k + 1) in go range 0 in
+    let zone = (((range lsl lz) land m32) - 1) land m32 in
+    let rec loop () =
+      let v = next_u32 r in
+      let p = v * range in
+      let hi32 = p lsr 32 and lo32 = p land m32 in
+      if lo32 <= zone then lo + hi32 else loop () in
+    loop ()
+end
+
 let hashers : (string, Text.hasher) Hashtbl.t = Hashtbl.create 16
 
 (* ---------- commands ---------- *)
@@ -360,6 +425,99 @@ let run (cmd : string) (args : string list) : string =
     (match spec_pos fen with
      | None -> "badfen"
      | Some p -> if Rules.checkmate p then "mate" else if Rules.stalemate p then "stale" else "none")
+  | "sancases", [fen] ->
+    (* every legal move x every admissible spelling, and the long form of every pseudo-legal illegal move *)
+    (match spec_pos fen with
+     | None -> "badfen"
+     | Some p ->
+       let pos = L.concat_map (fun m -> L.map (fun sp -> string_of_cps sp ^ ">" ^ spec_move_str m) (SanSpec.spellings p m)) (Rules.legal_moves p) in
+       let neg = L.map (fun m -> string_of_cps (SanSpec.long_form p m) ^ ">") (SanSpec.illegal_pseudo_moves p) in
+       String.concat " " (pos @ neg))
+  | "san", [fen; text] ->
+    (match model_state fen with
+     | None -> "badfen"
+     | Some s ->
+       (match Notation.san_parse (codepoints (unescape text)) with
+        | None -> "err"
+        | Some q ->
+          let l = L.filter_map (fun (m, _) -> if MoveEnc.qtest q m then
+              Some (Printf.sprintf "%d/%d/%d" (int_of_n (MoveEnc.m_origin m)) (int_of_n (MoveEnc.m_dest m)) (opt_piece_int (MoveEnc.m_promotion m))) else None)
+              (MoveGen.gen_legal s) in
+          "ok " ^ String.concat ";" (L.sort compare l)))
+  | "lan", [fen] ->
+    (match model_state fen with
+     | None -> "badfen"
+     | Some s ->
+       let l = L.map (fun (m, n) ->
+         let text = Notation.lan_write m in
+         let same = (match Notation.uci_move_query text with
+           | Text.Ok q -> (match MoveGen.resolve s [q] with MoveGen.ROk n' -> n' = n | _ -> false)
+           | _ -> false) in
+         Printf.sprintf "%d/%d/%d>%s>%d" (int_of_n (MoveEnc.m_origin m)) (int_of_n (MoveEnc.m_dest m)) (opt_piece_int (MoveEnc.m_promotion m))
+           (string_of_cps text) (bool_int same)) (MoveGen.gen_legal s) in
+       String.concat ";" (L.sort compare l))
+  | "search", [hseed; seed; depth; cancel; workers; nt; nb; hist; fens] ->
+    let int_of_z = function Z0 -> 0 | Zpos p -> int_of_pos p | Zneg p -> - (int_of_pos p) in
+    let z_of_int i = if i >= 0 then (match n_of_int i with N0 -> Z0 | Npos p -> Zpos p) else (match n_of_int (-i) with N0 -> Z0 | Npos p -> Zneg p) in
+    let r0 = Rng.of_seed_u64 (Int64.of_string ("0u" ^ hseed)) in
+    let hs = Text.hasher_of_stream (L.init 1038 (fun _ -> Rng.next_u64_n r0)) in
+    let tt = ref (Table.empty_access (nat_of_int (int_of_string nt)) (nat_of_int (int_of_string nb))) in
+    let history = ref (if hist = "-" then [] else
+      L.filter_map (fun h -> match model_state h with Some st -> Some (Text.hash hs st) | None -> None) (String.split_on_char '|' hist)) in
+    (* dedupe as a set of keys *)
+    let cancel_at = if cancel = "-" then None else Some (n_of_int (int_of_string cancel)) in
+    let iters = if depth = "-" then 100000 else int_of_string depth in
+    if workers <> "1" then "model-single-worker-only" else
+    let outs = L.mapi (fun i fen ->
+      match model_state fen with
+      | None -> "badfen"
+      | Some st ->
+        let main = Rng.of_seed_u64 (Int64.add (Int64.of_string ("0u" ^ seed)) (Int64.of_int i)) in
+        let wseeds : (int, Rng.t * int array ref * int ref) Hashtbl.t = Hashtbl.create 8 in
+        let drawn = ref 0 in
+        let worker it =
+          (match Hashtbl.find_opt wseeds it with
+           | Some w -> w
+           | None ->
+             (* iterations are visited in order, one worker each: the it-th gen() of the main rng *)
+             while !drawn < it do ignore (Rng.next_u64_parts main); incr drawn done;
+             let w = (Rng.of_seed_u64 (Rng.next_u64_int64 main), ref (Array.make 1024 0), ref 0) in
+             incr drawn; Hashtbl.replace wseeds it w; w) in
+        let jit_of itn idxn =
+          let (r, buf, filled) = worker (int_of_n itn) in
+          let idx = int_of_n idxn in
+          while !filled <= idx do
+            if !filled >= Array.length !buf then begin
+              let nb = Array.make (2 * Array.length !buf) 0 in Array.blit !buf 0 nb 0 !filled; buf := nb end;
+            (!buf).(!filled) <- Rng.gen_range_incl r (-10) 10; incr filled
+          done;
+          z_of_int (!buf).(idx) in
+        let res = Search.analyze_iterative hs jit_of cancel_at (nat_of_int iters) st !history !tt in
+        tt := res.Search.r_tt; history := res.Search.r_history;
+        let evs = L.map (function
+          | Search.EvProgress (d, n) -> Printf.sprintf "P%d:%d" (int_of_n d) (int_of_n n)
+          | Search.EvBest (ev, line) -> Printf.sprintf "B%d:%s" (int_of_z ev) (String.concat "," (L.map (fun m -> string_of_int (int_of_n m)) line))) res.Search.r_events in
+        let oc = int_of_n res.Search.r_outcome in
+        let tr = L.rev res.Search.r_trace in
+        let md = 1000000007 in
+        let nmod n = int_of_n (snd (BinNat.N.div_eucl n (n_of_int md))) in
+        let acc = L.fold_left (fun acc ((((h, d), mx), a), b) ->
+          L.fold_left (fun acc x -> (acc * 131 + x + 7) mod md) acc [nmod h; int_of_n d mod md; int_of_n mx mod md; int_of_z a + 20000; int_of_z b + 20000]) 17 tr in
+        let evs = if Sys.getenv_opt "WV_TRACE" <> None then
+            evs @ [Printf.sprintf "TRACE[%s]" (String.concat " " (L.map (fun ((((h, d), mx), a), b) ->
+              Printf.sprintf "%s:%d:%d:%d:%d" (dec_of_n h) (int_of_n d) (int_of_n mx) (int_of_z a) (int_of_z b)) tr))] else evs in
+        Printf.sprintf "%s #%d t%d%s" (String.concat " " evs) (int_of_n res.Search.r_gnodes) acc (if oc >= 2 then Printf.sprintf " MODEL-OUTCOME-%d" oc else ""))
+      (String.split_on_char '|' fens) in
+    String.concat " || " outs
+  | "hashstream", [seed] ->
+    let r = Rng.of_seed_u64 (Int64.of_string ("0u" ^ seed)) in
+    String.concat "," (L.init 1038 (fun _ -> dec_of_n (Rng.next_u64_n r)))
+  | "jitter", [seed; n] ->
+    (* what the searcher draws for its first worker of the first iteration on a fresh artifact: hasher keys, worker seed, jitter *)
+    let r = Rng.of_seed_u64 (Int64.of_string ("0u" ^ seed)) in
+    for _ = 1 to 1038 do ignore (Rng.next_u64_parts r) done;
+    let w = Rng.of_seed_u64 (Rng.next_u64_int64 r) in
+    String.concat "," (L.init (int_of_string n) (fun _ -> string_of_int (Rng.gen_range_incl w (-10) 10)))
   | "sethasher", [seed; stream] ->
     Hashtbl.replace hashers seed (Text.hasher_of_stream (L.map n_of_dec (String.split_on_char ',' stream))); "ok"
   | "hash", [seed; fen] ->
